@@ -927,12 +927,12 @@ Lemma cancel_not_held cfg m r ob ri c' :
   nth_error (m_reqs (track_op cfg m (Cancel r) ob)) r = Some ri -> ri_stat ri <> SHeld c'.
 Proof.
   cbn [track_op]. destruct (nth_error (m_reqs m) r) as [x|] eqn:E; [|intros H; congruence].
-  destruct (ri_stat x) eqn:Es; try (intros H; rewrite E in H; inversion H; subst; congruence); cbv zeta;
+  destruct (ri_stat x) eqn:Es; try (intros H; rewrite E in H; inversion H; subst; congruence); cbv beta iota zeta;
     match goal with |- nth_error (m_reqs (ri_upd ?f r ?m')) r = _ -> _ =>
       assert (Em : m_reqs m' = m_reqs m)
         by (first [reflexivity | destruct (ri_popx x) as [c|]; [|reflexivity]; destruct (nth_error (m_conns m) c) as [y|]; [|reflexivity];
             destruct (ci_share y); reflexivity]);
-      cbn [ri_upd set_m_reqs m_reqs]; rewrite Em, (nth_error_upd_nth_eq f _ _ _ E)
+      cbn [ri_upd set_m_reqs m_reqs]; try rewrite Em; rewrite (nth_error_upd_nth_eq f _ _ _ E)
     end; intros H; inversion H; subst; cbn; discriminate.
 Qed.
 
